@@ -75,6 +75,7 @@ inductive Op where
   | pos | capture (r : Nat) | seekSlot (r : Nat) | seekTo (line byte : Nat)
   | setPolicy (p : PolDesc)
   | json (j : Nat) | ownedJson
+  | shrink (j : Nat)
 deriving Repr
 
 def parseOp (s : String) : Option Op :=
@@ -84,6 +85,7 @@ def parseOp (s : String) : Option Op :=
   | ['p'] => some .pos
   | ['y'] => some .ownedJson
   | 'j' :: j => (String.ofList j).toNat?.map .json
+  | 'h' :: j => (String.ofList j).toNat?.map .shrink
   | 's' :: j => (String.ofList j).toNat?.map .set
   | 'i' :: j => (String.ofList j).toNat?.map .dump
   | 'c' :: j => (String.ofList j).toNat?.map .capture
@@ -213,6 +215,10 @@ def step (s : St) (op : Op) : St × String :=
     match s.sets[j]? with
     | some rs => (s, "J:" ++ hexOf (Serde.serFaSet rs).render.toUTF8.toList ++ ":rt=1")
     | none => (s, "bad-op")
+  | .shrink j =>
+    match s.sets[j]? with
+    | some rs => (s, s!"H{rs.npos}")
+    | none => (s, "bad-op")
   | .ownedJson =>
     let (r, o) := next (fuelOf s.r) s.r
     match o with
@@ -336,6 +342,10 @@ def step (s : St) (op : Op) : St × String :=
   | .json j =>
     match s.sets[j]? with
     | some rs => (s, "J:" ++ hexOf (Serde.serFqSet rs).render.toUTF8.toList ++ ":rt=1")
+    | none => (s, "bad-op")
+  | .shrink j =>
+    match s.sets[j]? with
+    | some rs => (s, s!"H{rs.positions.length}")
     | none => (s, "bad-op")
   | .ownedJson =>
     let (r, o) := next (fuelOf s.r) s.r
@@ -592,6 +602,7 @@ def runWrite (f : String) (w : Nat) (a : List String) : Option (Option (List UIn
     | "fa_wrapseq" => do let id ← unhex a0; let d ← argOf a1; let s ← unhex a2; some (Write.faWrap id d s w)
     | "fa_seqiter" => do let h ← unhex a0; some (some (Write.faRefWrite h (segsOf a1)))
     | "fa_wrapiter" => do let h ← unhex a0; some (Write.faRefWrap h (segsOf a1) w)
+    | "fa_seq" => do let h ← unhex a0; let s ← unhex a1; some (some (Write.faTo h s))
     | "fa_owned" => do let h ← unhex a0; let s ← unhex a1; some (some (Write.faTo h s))
     | "fa_owned_wrap" => do let h ← unhex a0; let s ← unhex a1; some (Write.faOwnedWrap h s w)
     | "fa_many" =>
